@@ -298,7 +298,11 @@ func (w *Worker) race(full string, isInt bool) (answer, *SolverProc) {
 	launch(sv.cvc5)
 	pending := 1
 	joined := false
-	deadline := time.After(queryTO)
+	to := queryTO
+	if w.longTO {
+		to = 5 * queryTO
+	}
+	deadline := time.After(to)
 	var join <-chan time.Time
 	if isInt {
 		join = time.After(raceWait)
